@@ -167,6 +167,7 @@ var syms = []sym{
 	{"tab", []string{`\t`}},
 	{"u0001", []string{`\u0001`}},
 	{"e-acute", []string{"é", `\u00e9`}},
+	{"astral", []string{"😀", `\ud83d\ude00`}}, // U+1F600: needs a surrogate pair when escaped
 }
 
 // leafTexts enumerates the JSON text of every string literal of <= n symbols (every spelling).
@@ -274,7 +275,7 @@ func keysOf(m map[string]string) []string {
 var flatKeySets = [][]string{{"a"}, {"é"}, {"a.b"}, {"a", "b"}, {"a.a", "a.b"}, {"a.b", "b"}, {"b.a.a", "b.a.b"}, {"a", "b.é"}}
 
 func valueStrings(n int, f func(v string)) {
-	raw := []string{"a", `"`, `\`, "/", "\n", "\t", "\x01", "é", "<", "\u2028"}
+	raw := []string{"a", `"`, `\`, "/", "\n", "\t", "\x01", "é", "<", "\u2028", "😀", "\U00010000", "\uffff", "\x7f"}
 	var rec func(cur string, left int)
 	rec = func(cur string, left int) {
 		f(cur)
@@ -644,7 +645,7 @@ var _ = bytes.Contains
 
 func init() {
 	fw.Register(&fw.Check{ID: "C20", Level: "exploration",
-		Rule: "all nested maps over keys {a,b,é} with depth<=3 and <=3 (quick) / <=4 (thorough) leaves (flatten/rebuild both ways, string variant); all JSON documents of 4 nested-object shapes whose string leaf ranges over every string of <=2 (quick) / <=3 (thorough) symbols from {a, quote, backslash, slash, newline, tab, U+0001, é} in every JSON spelling (raw and escaped), plus number/true/null/array leaves, compared with encoding/json (UseNumber); all flat maps from 8 prefix-free key sets x every value string of <=2/3 symbols from {a, quote, backslash, slash, newline, tab, 0x01, é, '<', U+2028} written compact and formatted (valid for encoding/json, same map, round trip); plus EVERY prefix-free set of <=3/<=4 keys from all 30 paths of depth <=2 over the segments {s, s1, s10, s-, é} (names that are prefixes of one another or sort around the separator); translation loader on 10 directory layouts (1-4 files, 1-40 keys per file) under every schedule with <= bound preemptions. distinct = inputs/schedules",
+		Rule: "all nested maps over keys {a,b,é} with depth<=3 and <=3 (quick) / <=4 (thorough) leaves (flatten/rebuild both ways, string variant); all JSON documents of 4 nested-object shapes whose string leaf ranges over every string of <=2 (quick) / <=3 (thorough) symbols from {a, quote, backslash, slash, newline, tab, U+0001, é, U+1F600} in every JSON spelling (incl. surrogate pairs) (raw and escaped), plus number/true/null/array leaves, compared with encoding/json (UseNumber); all flat maps from 8 prefix-free key sets x every value string of <=2/3 symbols from {a, quote, backslash, slash, newline, tab, 0x01, é, '<', U+2028, U+1F600, U+10000, U+FFFF, 0x7f} written compact and formatted (valid for encoding/json, same map, round trip); plus EVERY prefix-free set of <=3/<=4 keys from all 30 paths of depth <=2 over the segments {s, s1, s10, s-, é} (names that are prefixes of one another or sort around the separator); translation loader on 10 directory layouts (1-4 files, 1-40 keys per file) under every schedule with <= bound preemptions. distinct = inputs/schedules",
 		Run: run, Replay: replay,
 		Assumptions: []string{"encoding/json is the reference JSON decoder", "loader values are %-free (Translate is a format API)", "2-3 preemptions, MaxJob 1-2 for the loader"}})
 }
